@@ -184,7 +184,7 @@ theorem core_sublist3_ok (m : IntMode) (a b c : Value) (hL : CoreArg.lenOk (.v a
   · rename_i items
     split
     · rename_i ln
-      cases hn : ln.toUsize? with
+      cases hn : ln.toUsizeV? with
       | none => exact ⟨_, rfl⟩
       | some n =>
         simp only
